@@ -139,6 +139,7 @@ def render(case: dict) -> str:
                 "clear": f"{e}.clear()",
                 "sort": f"{e}.sort(key=lambda _v: 0)",
                 "reverse": f"{e}.reverse()",
+                "reinit": f"{e}.__init__({e}[::-1])",
                 "setitem": f"{e}[0] = {f}",
                 "setalias": f"{e}[0] = {e}[1]",
                 "delitem": f"del {e}[0]",
